@@ -103,7 +103,34 @@ func RandomEvidenceTargets(r *Run, st *state.StateDB, n uint64) []common.Address
 	if v == nil {
 		return nil
 	}
-	return []common.Address{v.MainAddress()}
+	out := []common.Address{v.MainAddress()}
+	// every second time further validators equivocated in the same round: several evidences are
+	// confirmed in ONE block, and they reach the proposer's pool in arbitrary (gossip) order
+	if r.R.Intn(2) == 0 {
+		for k := 0; k < 3; k++ {
+			o := r.W.pickVal(st, func(x *state.Validator) bool {
+				if !eligible(x) {
+					return false
+				}
+				for _, a := range out {
+					if a == x.MainAddress() {
+						return false
+					}
+				}
+				return true
+			})
+			if o == nil {
+				break
+			}
+			out = append(out, o.MainAddress())
+		}
+		r.R.Shuffle(len(out), func(i, j int) { out[i], out[j] = out[j], out[i] })
+		if len(out) > 1 {
+			r.C.Count("blocks_with_several_evidences_posted", 1)
+			r.SigPart("evidence:several-in-one-block")
+		}
+	}
+	return out
 }
 
 // EvidenceClass recognises, by observation, a builder/importer divergence caused by evidence that
